@@ -499,6 +499,7 @@ struct PtsOp {
   int op = P_NOP, thr = 0, backend = 0, k = 0, target = -1;
   size_t size  = 0;
   bool changed = false;
+  bool filler  = false; // up-front block that is only allocated if it still fits the bump region
   int idx      = -1;
 };
 struct PtsPlanner {
@@ -512,14 +513,18 @@ struct PtsPlanner {
   // implicit leading operations: `pre` raw 256 KB allocations per backend, so
   // that the bump region gets exhausted and later requests are served from
   // the free lists (exact fit or split of a bigger chunk)
-  std::vector<PtsOp> prefill(int pre, int nbackends) {
+  // With `fill`, a descending series 128 KB .. 128 B follows; run() allocates
+  // each of them only if it still fits below 2 MB (the handle exists either
+  // way), which leaves a bump remainder of less than one cache line.
+  std::vector<PtsOp> prefill(int pre, int nbackends, bool fill = false) {
     std::vector<PtsOp> v;
-    for (int i = 0; i < pre; ++i)
+    for (int i = 0; i < pre + (fill ? 11 : 0); ++i)
       for (int b = 0; b < nbackends; ++b) {
         PtsOp o;
         o.op      = P_RAW;
         o.backend = b;
-        o.size    = PTS_MAX;
+        o.size    = i < pre ? PTS_MAX : (size_t)1 << (17 - (i - pre));
+        o.filler  = i >= pre;
         hs.push_back(H{b, false, true});
         v.push_back(o);
       }
@@ -659,6 +664,7 @@ static std::vector<Round> plan_conc_heaps(const Case& c, const std::vector<HeapS
   return rounds;
 }
 static int pts_prefill(const Case& c) { return (int)(c[F_B] % 8); }
+static bool pts_fill(const Case& c) { return ((c[F_B] / 8) & 1) != 0; }
 static std::vector<std::vector<PtsOp>> plan_conc_pts(const Case& c, int T, int K) {
   PtsPlanner P(T);
   std::vector<std::vector<PtsOp>> rounds;
@@ -701,8 +707,8 @@ void normalize_case(Case& c) {
   clampf(F_TOPO, 0, NTOPO - 1);
   clampf(F_THREADS, c[F_MODE] == M_CONC ? 2 : 1, MAXT);
   clampf(F_ASEED, 0, (1 << 20) - 1);
-  clampf(F_A, 1, 4096);
-  clampf(F_B, 1, 4096);
+  clampf(F_A, 0, 4096);
+  clampf(F_B, 0, 4096);
   clampf(F_C, 1, 16);
   if (c.f.size() > F_COUNT + MAXOPS)
     c.f.resize(F_COUNT + MAXOPS);
@@ -725,7 +731,7 @@ static int fix_excluded(Case& c) {
   };
   if (mode == M_PTS) {
     PtsPlanner P(T);
-    P.prefill(pts_prefill(c), 2);
+    P.prefill(pts_prefill(c), 2, pts_fill(c));
     for (size_t i = 0; i < ntail(c); ++i) {
       Raw r = raw_of(c.f[F_COUNT + i]);
       if (P.step(r).changed) {
@@ -778,7 +784,7 @@ Case generate() {
   c[F_B]    = B;
   c[F_C]    = *uni(1, 13);
   if (mode == M_PTS || (mode == M_CONC && var == CV_PTS)) // b: number of 256 KB blocks allocated up front (per backend)
-    c[F_B] = *gen::weightedElement<int64_t>({{2, 0}, {1, 3}, {2, 5}, {3, 6}, {4, 7}});
+    c[F_B] = *gen::weightedElement<int64_t>({{2, 0}, {1, 3}, {1, 5}, {2, 6}, {2, 7}, {1, 8 + 0}, {2, 8 + 5}, {2, 8 + 6}, {3, 8 + 7}}); // +8: fill the region exactly
   if (mode == M_PERITER) {
     int n = *gen::inRange(0, 41);
     for (int i = 0; i < n; ++i)
@@ -793,8 +799,12 @@ Case generate() {
       int thr  = *uni(0, T);
       uint64_t arg;
       if (kind == K_ALLOC) {
-        uint64_t sz = *gen::oneOf(uni<uint64_t>(0, NPTS_TABLE), uni<uint64_t>(0, 7), gen::map(gen::inRange<uint64_t>(0, 2000), [](uint64_t v) { return NPTS_TABLE + v; }),
-                                  gen::map(uni<uint64_t>(0, PTS_MAX), [](uint64_t v) { return NPTS_TABLE + v; }));
+        // mostly small and medium sizes: the up-front 256 KB blocks already fill
+        // the region, big requests would only end the case with "out of memory"
+        uint64_t sz = *gen::weightedOneOf<uint64_t>({{6, uni<uint64_t>(0, NPTS_TABLE)},
+                                                      {6, gen::map(gen::inRange<uint64_t>(0, 2000), [](uint64_t v) { return NPTS_TABLE + v; })},
+                                                      {5, gen::map(uni<uint64_t>(0, 40000), [](uint64_t v) { return NPTS_TABLE + v; })},
+                                                      {1, gen::map(uni<uint64_t>(0, PTS_MAX), [](uint64_t v) { return NPTS_TABLE + v; })}});
         arg         = (uint64_t)*uni(0, 2) + 2 * sz;
       } else if (kind == K_ALLOCB)
         arg = (uint64_t)*uni(0, 2) + 2 * (uint64_t)*uni(0, NOBJ);
@@ -840,6 +850,52 @@ Case generate() {
   return c;
 }
 
+// exhaustive small domain (--enum): every Pow_2 class boundary 2^k-1, 2^k,
+// 2^k+1 (k = 3..16, plus 0, 1 and the malloc fallback) and every fixed size
+// 1..64, each as allocate x2 / free all / allocate again, on one and on two
+// threads (the second thread frees)
+void enumerate_cases(std::vector<Case>& out) {
+  auto base = [](int mode, int var, int threads, int64_t a) {
+    Case c;
+    c.f.assign(F_COUNT, 0);
+    c[F_MODE]    = mode;
+    c[F_VAR]     = var;
+    c[F_THREADS] = threads;
+    c[F_A] = c[F_B] = a;
+    c[F_C]          = 1;
+    return c;
+  };
+  for (int var = 0; var < 2; ++var)
+    for (int threads = 1; threads <= 2; ++threads) {
+      auto spec = heap_specs(M_POW2, var, 0, 0)[0];
+      auto tab  = size_table(spec, false);
+      for (size_t g = 0; g < tab.size(); g += 3) {
+        Case c   = base(M_POW2, var, threads, 8);
+        size_t e = std::min(tab.size(), g + 3);
+        for (int rep = 0; rep < 2; ++rep)
+          for (size_t i = g; i < e; ++i)
+            c.f.push_back(enc(K_ALLOC, 0, 4 * i));
+        for (size_t i = 0; i < 2 * (e - g); ++i)
+          c.f.push_back(enc(K_FREE, threads - 1, 0));
+        for (size_t i = g; i < e; ++i)
+          c.f.push_back(enc(K_ALLOC, 0, 4 * i));
+        out.push_back(c);
+      }
+    }
+  for (int threads = 1; threads <= 2; ++threads)
+    for (int64_t a = 1; a <= 64; ++a) {
+      Case c = base(M_FIXED, 0, threads, a);
+      c[F_B] = a + 1;
+      for (int i = 0; i < 4; ++i)
+        c.f.push_back(enc(K_ALLOC, 0, i % 2));
+      for (int i = 0; i < 3; ++i)
+        c.f.push_back(enc(K_FREE, threads - 1, 0));
+      for (int i = 0; i < 4; ++i)
+        c.f.push_back(enc(K_ALLOC, 0, i % 2));
+      out.push_back(c);
+    }
+}
+
 std::string finding_key(const Case& c0, const std::string& failkey) {
   if (failkey == "alloc2-first" || failkey == "alloc2-refill-big")
     return std::string("C09/BumpHeap/") + failkey;
@@ -879,6 +935,7 @@ static void emit_labels() {
   if (g_fallback)
     label("malloc_fallback", 1);
   label("pagealigned", g_pagealigned);
+  label("threads_used", g_threads_used);
   // NT: a free followed by a later allocation of the same size class, or a
   // cross-thread free, or a size on a class boundary
   nontrivial(g_reuse || g_xfree || g_boundary);
@@ -1483,10 +1540,12 @@ static void run_conc_heaps(const Case& c, int var, int T) {
         g_threads_used = std::max(g_threads_used, o.thr + 1);
         if (!b->req)
           continue;
+        g_shapekey = o.shape == 1 ? "alloc2-first" : o.shape == 2 ? "alloc2-refill-big" : nullptr;
         if (Blk* x = sh.overlap(b->p, b->req))
           failop("overlap", "%s %s(%zu) on thread %d returned [%p,+%zu) which overlaps live block #%llu [%p,+%zu) (round %d, thread %d)",
                  specs[o.heap].subject, opname(o.op), o.size, o.thr, (void*)b->p, b->req, (unsigned long long)x->id, (void*)x->p, x->req, x->step, x->thr);
-        b->live = true;
+        g_shapekey = nullptr;
+        b->live    = true;
         sh.add(b);
       }
     sh.verify_all("after this round");
@@ -1674,7 +1733,17 @@ static void run_pts_history(const Case& c, int T) {
   PtsClassifier cl;
   std::vector<std::unique_ptr<PHandle>> hs;
   int step = 0, moves = 0;
-  std::vector<PtsOp> pre = P.prefill(pts_prefill(c), 2);
+  bool fill              = pts_fill(c);
+  std::vector<PtsOp> pre = P.prefill(pts_prefill(c), 2, fill);
+  // steering only (never an oracle): in fill mode the region is exhausted, a
+  // request can only succeed out of space released earlier.  `credit` mirrors
+  // the change-making of the free lists; requests it cannot serve are skipped
+  // instead of ending the case with "out of memory".
+  size_t hw[2] = {0, 0};
+  std::array<int, 32> credit[2];
+  credit[0].fill(0);
+  credit[1].fill(0);
+  long skipped = 0;
   for (size_t i = 0; i < pre.size() + ntail(c); ++i) {
     PtsOp o = i < pre.size() ? pre[i] : P.step(raw_of(c.f[F_COUNT + i - pre.size()]));
     ++step;
@@ -1684,17 +1753,39 @@ static void run_pts_history(const Case& c, int T) {
       size_t mle = max_live_end(hs, o.backend);
       hs.emplace_back(new PHandle());
       PHandle& h = *hs.back();
+      int cls    = log2class(o.size, 7);
+      if (o.filler && hw[o.backend] + o.size > PAGE)
+        continue; // does not fit any more: the handle stays empty
+      if (fill && i >= pre.size()) {
+        int cc = cls;
+        while (cc < 32 && !credit[o.backend][cc])
+          ++cc;
+        if (cc == 32) {
+          ++skipped;
+          continue;
+        }
+        --credit[o.backend][cc];
+        for (int k = cls; k < cc; ++k)
+          ++credit[o.backend][k];
+      }
       on_thread(o.thr, [&] { pts_create(env, o, h, hs.size(), step); });
       pts_register(sh, h, o.op == P_OBJ ? "storage object" : "allocOffset");
-      cl.on_alloc(h, mle);
+      hw[o.backend] = std::max(hw[o.backend], (size_t)h.off + ((size_t)1 << cls));
+      if (i >= pre.size())
+        cl.on_alloc(h, mle);
     } else if (o.op == P_FREE) {
       PHandle& h = *hs[o.target];
+      if (!h.alive)
+        continue; // never allocated (see above)
       set_ctx("step %d: release %s %s of %zu bytes (offset %u) on thread %d", step, BE_NAME[h.backend], h.obj ? "storage object" : "offset", h.size, h.off, o.thr);
       on_thread(o.thr, [&] { pts_destroy(env, h); });
       pts_unregister(sh, h);
+      ++credit[h.backend][log2class(h.size, 7)];
       cl.on_free(h, o.thr);
     } else if (o.op == P_MOVE) {
       PHandle& h = *hs[o.target];
+      if (!h.alive)
+        continue;
       set_ctx("step %d: move-construct %s storage object of %zu bytes (offset %u) and destroy the source, on thread %d", step, BE_NAME[h.backend], h.size,
               h.off, o.thr);
       on_thread(o.thr, [&] {
@@ -1717,6 +1808,8 @@ static void run_pts_history(const Case& c, int T) {
   label("subject", "PerBackend");
   label("pts_split", g_pts_split);
   label("pts_freelist", g_pts_freelist);
+  label("pts_fill", fill);
+  label("pts_skipped", skipped > 0);
   label("moves", moves > 0);
   finish();
 }
